@@ -6,6 +6,7 @@ use std::io::{BufRead, Write};
 mod util;
 mod sym;
 mod rs;
+mod place;
 
 use util::*;
 
@@ -19,6 +20,13 @@ fn dispatch(op: &str, a: &[&str]) -> String {
         "gf_divrow" => rs::gf_divrow(a),
         "gf_misc" => rs::gf_misc(a),
         "generator" => rs::generator(a),
+        "place_table" => place::place_table(a),
+        "place_write" => place::place_write(a),
+        "place_read" => place::place_read(a),
+        "bitmap" => place::bitmap(a),
+        "bitmap_tag" => place::bitmap_tag(a),
+        "from_bits" => place::from_bits(a),
+        "from_bits_flip" => place::from_bits_flip(a),
         _ => format!("unknown-op {}", op),
     }
 }
